@@ -53,6 +53,8 @@ def hook(event, args):
         # point itself uses (argparse pulling in locale, ...) are not a consequence of the input's content
         if name in NAMED[0] or name.split(".")[0] in NAMED[0] or "verif_sentinel" in name:
             EVENTS.append(("import", name))
+        elif name.startswith("encodings.") and name.split(".")[-1] in NAMED[0]:
+            EVENTS.append(("import-of-input-named-codec", name))     # a codec looked up under a name the input chose
     elif event == "open":
         path, mode = args[0], args[1]
         if mode is None or not any(c in str(mode) for c in "wax+"):
@@ -77,6 +79,16 @@ def hook(event, args):
 
 
 sys.addaudithook(hook)
+import codecs  # noqa: E402
+
+
+def _codec_search(name):
+    if ACTIVE[0] and "verif_sentinel" in name:
+        EVENTS.append(("codec-search-function-called-with-input-name", name))
+    return None
+
+
+codecs.register(_codec_search)
 
 u = lambda s: op("SHORT_BINUNICODE", s)  # noqa
 MAL = []
@@ -93,6 +105,11 @@ for mod, name in (("verif_sentinel_pkg", "run"), ("verif_sentinel_pkg.sub", "run
         MAL.append((f"{gname}:{mod}.{name}:build", pre + g(mod, name) + [op("EMPTY_TUPLE"), op("REDUCE"), op("EMPTY_DICT"), u("a"), arg, op("SETITEM"), op("BUILD"), op("STOP")]))
         MAL.append((f"{gname}:{mod}.{name}:bare", pre + g(mod, name) + [op("STOP")]))
     MAL.append((f"inst:{mod}.{name}", [op("MARK"), u("a"), op("INST", (mod, name)), op("STOP")]))
+for gname, g in (("global", G), ("stack_global", SG)):
+    pre = [op("PROTO", 4)] if gname == "stack_global" else []
+    for codec in ("cp273", "verif_sentinel_codec"):
+        # the protocol 0-2 idiom for bytes, with a codec name of the input's choosing
+        MAL.append((f"{gname}:_codecs.encode:{codec}", pre + g("_codecs", "encode") + [u("x"), u(codec), op("TUPLE2"), op("REDUCE"), op("STOP")]))
 MAL.append(("persid", [op("PERSID", "verif_sentinel_pkg"), op("STOP")]))
 MAL.append(("binpersid", [u("verif_sentinel_pkg"), op("BINPERSID"), op("STOP")]))
 inputs = [(n, assemble(p)) for n, p in MAL] + list(corpus())
